@@ -214,6 +214,19 @@ class Stmts(Calls):
     def assign(self, tgt, v, st):
         """generator of (state, Ctl|None)"""
         if isinstance(tgt, ast.Name):
+            if isinstance(v, Ref) and st.heap[v.loc].kind in ('list', 'set', 'dict') and st.heap[v.loc].val is None:
+                # an empty container literal bound to a local whose element type the contract declares
+                con = self.contracts.get(st.frame.qualname)
+                t = con.local_types.get(tgt.id) if con is not None else None
+                if t is not None:
+                    t = t(st.frame.vars) if callable(t) else t
+                    h = st.heap[v.loc]
+                    if t.kind == 'list':
+                        h.val = V(z3.Empty(to_sort(t, self.reg)), t)
+                    elif t.kind == 'set':
+                        h.val = V(z3.K(to_sort(t.args[0], self.reg), z3.BoolVal(False)), t)
+                    elif t.kind == 'map':
+                        h.val = V(z3.K(to_sort(t.args[0], self.reg), opt_sort(to_sort(t.args[1], self.reg)).none), t)
             st.frame.vars[tgt.id] = v
             yield st, None
             return
@@ -532,11 +545,70 @@ class Stmts(Calls):
         # loop ordinal: position among the loops of the function in source order
         fnode = self.loop_index.get(st.frame.qualname)
         if fnode is None:
-            return None
+            # an inlined function with loop invariants in its contract: index its loops on demand
+            try:
+                func = self.resolve(st.frame.qualname)
+                fn_node, _ = self.func_ast(func)
+                self.index_loops(st.frame.qualname, fn_node)
+                fnode = self.loop_index.get(st.frame.qualname)
+            except Exception:
+                return None
+            if fnode is None:
+                return None
         ordinal = fnode.get((node.lineno, node.col_offset))
         return con.loops.get(ordinal)
 
     def loop_with_invariant(self, node, st, n, f, spec):
+        """cut the loop at its invariant.  What is havoced at the loop head: the names the body assigns, the containers it
+        mutates syntactically, and - found by executing the body - every heap cell that existed before the loop and differs
+        after some iteration (objects mutated through calls); the run is repeated until that set is closed."""
+        extra = []
+        for _attempt in range(5):
+            mark = len(self.obligations)
+            results = []
+            missing = self._loop_once(node, st.fork(), n, f, spec, extra, results)
+            if not missing:
+                yield from results
+                return
+            del self.obligations[mark:]
+            extra = extra + [m for m in missing if m not in extra]
+        raise Outside("the set of heap cells a loop body changes did not close")
+
+    def _heap_changes(self, before, after_st, havoced):
+        out = []
+        for loc, h0 in before.items():
+            h1 = after_st.heap.get(loc)
+            if h1 is None or h1 is h0:
+                continue
+            if h0.kind in ('list', 'set', 'dict'):
+                a, b = h0.val, h1.val
+                if a is b or (isinstance(a, V) and isinstance(b, V) and a.t is not None and b.t is not None and a.t.eq(b.t)):
+                    continue
+                if (loc, None) not in havoced:
+                    out.append((loc, None))
+            elif h0.fields is not None and h1.fields is not None:
+                for fn_, a in h0.fields.items():
+                    if fn_.startswith('!'):
+                        continue
+                    b = h1.fields.get(fn_)
+                    if a is b:
+                        continue
+                    if isinstance(a, V) and isinstance(b, V) and a.t is not None and b.t is not None and a.t.eq(b.t):
+                        continue
+                    if isinstance(a, Ref) and isinstance(b, Ref) and a.loc == b.loc:
+                        continue
+                    if not isinstance(a, (V, Ref)) and not isinstance(b, (V, Ref)):
+                        try:
+                            if a == b:
+                                continue
+                        except Exception:
+                            pass
+                    key = (loc, None) if h0.kind == 'stream' else (loc, fn_)
+                    if key not in havoced and key not in out:
+                        out.append(key)
+        return out
+
+    def _loop_once(self, node, st, n, f, spec, extra, results):
         qn = st.frame.qualname
         is_for = isinstance(node, ast.For)
         label = "%s:loop[%d]" % (qn, spec.ordinal)
@@ -562,7 +634,10 @@ class Stmts(Calls):
         # 3. havoc + assume invariant at an arbitrary iteration
         body_st = st.fork()
         i = self.fresh_term('i', z3.IntSort())
-        self.havoc(body_st, written, mutated_refs, node, is_for)
+        self.havoc(body_st, written, mutated_refs, node, is_for, extra)
+        head_heap = {loc: h.copy() for loc, h in body_st.heap.items()}
+        havoced = set(extra) | {(r.loc, None) for r in mutated_refs}
+        missing = []
         if is_for:
             body_st.assume(z3.And(i >= 0, self.b(self._lt(i, n))))
         body_st.frame.vars['!idx:' + spec.index_name] = V(i, INT)
@@ -579,7 +654,7 @@ class Stmts(Calls):
             entry = []
             for s, v in self.ev(node.test, body_st):
                 if isinstance(v, Raised):
-                    yield s, Ctl('raise', v.exc)
+                    results.append((s, Ctl('raise', v.exc)))
                     continue
                 for s2, side in self.branch(s, self.truth(v, s), "L%s:while" % node.lineno):
                     if side:
@@ -588,13 +663,16 @@ class Stmts(Calls):
                         exits.append(s2)        # loop exit with invariant + negated guard
         for s, c in entry:
             if c is not None:
-                yield s, c
+                results.append((s, c))
                 continue
             measure0 = None
             if spec.decreases:
                 measure0 = self.spec_value(spec.decreases, s, extra={'i': V(i, INT)})
             for s2, ctl in self.exec_block(node.body, s):
                 if ctl is None or ctl.kind == 'continue':
+                    for m in self._heap_changes(head_heap, s2, havoced):
+                        if m not in missing:
+                            missing.append(m)
                     self.check_invariant(s2, spec, V(i + 1, INT), n, label + ":preserve", node)
                     if measure0 is not None:
                         m1 = self.spec_value(spec.decreases, s2, extra={'i': V(i + 1, INT)})
@@ -603,23 +681,24 @@ class Stmts(Calls):
                 elif ctl.kind == 'break':
                     exits.append(s2)
                 else:
-                    yield s2, ctl
+                    results.append((s2, ctl))
         # 4. after the loop
         if is_for:
             after = st
-            self.havoc(after, written, mutated_refs, node, is_for)
+            self.havoc(after, written, mutated_refs, node, is_for, extra)
             self.assume_invariant(after, spec, self.lift_int(n), n)
             after.trace.append("L%s:loop-exit" % node.lineno)
             if self.feasible(after):
                 if node.orelse:
-                    yield from self.exec_block(node.orelse, after)
+                    results.extend(self.exec_block(node.orelse, after))
                 else:
-                    yield after, None
+                    results.append((after, None))
             for s in exits:
-                yield s, None
+                results.append((s, None))
         else:
             for s in exits:
-                yield s, None
+                results.append((s, None))
+        return missing
 
     def lift_int(self, n):
         return n if isinstance(n, V) or is_concrete(n) else V(n, INT)
@@ -629,7 +708,27 @@ class Stmts(Calls):
             return i < n
         return i < (n.t if isinstance(n, V) else n)
 
-    def havoc(self, st, names, refs, node, is_for):
+    def havoc(self, st, names, refs, node, is_for, extra=()):
+        for loc, fld in extra:
+            h = st.heap[loc]
+            if fld is None and h.kind in ('list', 'set', 'dict'):
+                if not any(r.loc == loc for r in refs):
+                    refs = list(refs) + [Ref(loc)]
+            elif h.kind == 'stream':
+                before = h.fields['pos'].t
+                h.fields['data'] = self.fresh('f.data', BYTES)
+                h.fields['pos'] = self.fresh('f.pos', INT)
+                self.stream_moved(st, h, before)
+                st.writes += 1
+            else:
+                oldv = h.fields.get(fld)
+                if isinstance(oldv, V):
+                    h.fields[fld] = self.fresh(fld, oldv.ty)
+                elif h.field_types and fld in h.field_types and not isinstance(oldv, Ref):
+                    h.fields[fld] = self.fresh(fld, h.field_types[fld])
+                else:
+                    raise Outside("loop body re-binds field %s (holding %s) of an object" % (fld, type(oldv).__name__))
+                st.writes += 1
         for name in names:
             if name in st.frame.vars:
                 old = st.frame.vars[name]
@@ -665,13 +764,13 @@ class Stmts(Calls):
                 else:
                     h.val = self.fresh('c', h.val.ty)
                 st.writes += 1
-            elif h.kind == 'obj':
-                raise Outside("loop mutates object fields (needs a frame in the loop contract)")
+            # fields of objects assigned in the body are found by executing it (see loop_with_invariant)
 
     def loop_var_type(self, st, name):
         con = self.contracts.get(st.frame.qualname)
         if con is not None and name in con.local_types:
-            return con.local_types[name]
+            t = con.local_types[name]
+            return t(st.frame.vars) if callable(t) else t
         raise Outside("type of loop-carried variable %s unknown: add c.local(%s=...) to the contract of %s"
                       % (name, name, st.frame.qualname))
 
@@ -679,7 +778,8 @@ class Stmts(Calls):
         con = self.contracts.get(st.frame.qualname)
         for name, val in st.frame.vars.items():
             if isinstance(val, Ref) and val.loc == ref.loc and con is not None and name in con.local_types:
-                return con.local_types[name]
+                t = con.local_types[name]
+                return t(st.frame.vars) if callable(t) else t
         raise Outside("type of an empty container mutated in a loop is unknown in %s: add c.local(name=TYPE)"
                       % st.frame.qualname)
 
